@@ -608,6 +608,20 @@ fn kb_value_cases() -> Vec<(String, Fmt)> {
         payloads.push(json!({"iss": gen::ISS, "exp": (now + off) as f64 + 0.5, "_sd_alg": "sha-256", "a": 1}));
         payloads.push(json!({"iss": gen::ISS, "exp": gen::EXP, "nbf": now + off, "iat": now + off, "_sd_alg": "sha-256", "a": 1, "cnf": {"jwk": good_jwk.clone()}}));
     }
+    // key-binding strings that are not JWTs at all: a multi-byte character at every byte offset 0..40 (error messages
+    // tend to quote a prefix of what they could not parse), in a presentation of a key-bound credential
+    {
+        let p = json!({"iss": gen::ISS, "exp": gen::EXP, "_sd_alg": "sha-256", "a": 1, "cnf": {"jwk": good_jwk.clone()}});
+        let jwt = tokens::sign_payload(&p, Alg::HS256, 0);
+        for k in 0..=40usize {
+            for tail in ["\u{e9}\u{20ac}\u{1F600}.b.c", "\u{1F600}", "\u{e9}.\u{e9}.\u{e9}"] {
+                let kb = format!("{}{}", "a".repeat(k), tail);
+                for fmt in codec::FMTS {
+                    out.push((Parts { jwt: jwt.clone(), disclosures: vec![], kb: Some(kb.clone()) }.serialize(fmt), fmt));
+                }
+            }
+        }
+    }
     for p in payloads {
         let jwt = tokens::sign_payload(&p, Alg::HS256, 0);
         let base_parts = Parts { jwt, disclosures: vec![], kb: None };
